@@ -1,8 +1,13 @@
 #!/usr/bin/env python3
 """seedprompt.py CNN -> prompt text for an independent change-seeding sub-agent."""
-import json, sys
+import glob, json, os, sys
 pid = sys.argv[1]
-wt = "/tmp/seedwork/%s" % pid
+labels = sys.argv[2] if len(sys.argv) > 2 else "AB"        # e.g. "CD" for a second wave
+la, lb = labels[0], labels[1]
+wt = "%s/%s" % (os.environ.get("SEEDWORK", "/tmp/seedwork"), pid)
+taken = []
+for f in sorted(glob.glob("/verif/seeded/%s-*/notes.md" % pid)):
+    taken.append(open(f).readline().strip().lstrip("# "))
 for l in open('/verif/properties.jsonl'):
     d = json.loads(l)
     if d['id'] == pid:
@@ -18,10 +23,11 @@ Here is a semantic property of ZConfig that is supposed to hold for EVERY input 
 
 %(prop)s
 
-Task: produce TWO independent, realistic source changes (call them A and B, touching different mechanisms or code sites) to files under %(wt)s/src/ZConfig that each BREAK this property while the library still imports and the existing test suite still passes (all tests except the known baseline failure). Each change should look like a plausible refactoring slip or "optimisation" a maintainer could make (an off-by-one, a reordered check, a dropped normalisation, a cached value, a shared mutable default, a condition that is wrong only for a particular combination, two sites that each look fine alone, ...). IMPORTANT: prefer changes that need something SPECIFIC to manifest - a particular multi-step sequence of operations, an unusual input shape, a fault at a particular point, a specific combination of schema features, a second load against the same object - rather than ones any ordinary use would expose at once. Do not just delete a feature wholesale. Do not edit any test files.
+Task: produce TWO independent, realistic source changes (call them %(la)s and %(lb)s, touching different mechanisms or code sites) to files under %(wt)s/src/ZConfig that each BREAK this property while the library still imports and the existing test suite still passes (all tests except the known baseline failure). Each change should look like a plausible refactoring slip or "optimisation" a maintainer could make (an off-by-one, a reordered check, a dropped normalisation, a cached value, a shared mutable default, a condition that is wrong only for a particular combination, two sites that each look fine alone, ...). IMPORTANT: prefer changes that need something SPECIFIC to manifest - a particular multi-step sequence of operations, an unusual input shape, a fault at a particular point, a specific combination of schema features, a second load against the same object - rather than ones any ordinary use would expose at once. Do not just delete a feature wholesale. Do not edit any test files.
 
-For each change X in {A, B} deliver, inside %(wt)s/_seed/ :
-  * X.diff        - the change as produced by `git -C %(wt)s diff` (only that change: build A, save the diff, `git -C %(wt)s checkout -- src`, then build B)
+%(taken)sFor each change X in {%(la)s, %(lb)s} deliver, inside %(wt)s/_seed/ :
+  * X.diff        - the change as produced by `git -C %(wt)s diff` (only that change: build %(la)s, save the diff, `git -C %(wt)s checkout -- src`, then build %(lb)s)
   * X_demo.py     - a small stand-alone program (uses only ZConfig and the stdlib; creates any files it needs in a temp dir and removes them) that exits 0 and prints PROPERTY HOLDS on the unmodified source and exits 1 printing PROPERTY VIOLATED (with the concrete failing input and what was observed vs expected) when the change is applied. Run it as: PYTHONPATH=<tree>/src /venv/bin/python X_demo.py
   * X.md          - 5-10 lines: what the change is, why it breaks the property statement, what specific circumstances it needs in order to manifest, and the exact commands you ran with their results (test-suite summary line with the change applied; demo result with and without the change).
-Verify all of it yourself: suite passes with the change, demo fails with the change and passes without. Leave the worktree's src/ in the UNMODIFIED state when you finish (git -C %(wt)s checkout -- src) with only the _seed/ directory added. Your final message: one paragraph per change (what, where, what it needs to manifest), plus confirmation of the verification runs.""" % {"wt": wt, "prop": json.dumps(prop, indent=1)})
+Verify all of it yourself: suite passes with the change, demo fails with the change and passes without. Leave the worktree's src/ in the UNMODIFIED state when you finish (git -C %(wt)s checkout -- src) with only the _seed/ directory added. Your final message: one paragraph per change (what, where, what it needs to manifest), plus confirmation of the verification runs.""" % {"wt": wt, "prop": json.dumps(prop, indent=1), "la": la, "lb": lb,
+       "taken": ("Earlier volunteers already delivered the following changes for this property; yours must use DIFFERENT mechanisms and code sites, and should need a different kind of circumstance to manifest:\n" + "".join("  - %s\n" % t for t in taken) + "\n") if taken else ""})
